@@ -215,6 +215,23 @@ def _wiring(ctx, P):
         ok = len(cs) >= 1 and all(match(w, undefarg(x[2 + idx])) for x in cs)
         ctx.ob("%s/test_accept" % q.rsplit("::", 1)[-1], "PROVENANCE", "%s constructs ATMPArgs with test_accept = %s" % (q, show(w)), ok, g.where,
                {"got": [show(x[2 + idx]) for x in cs]})
+    # the dry-run flag must not leak into any *other* acceptance option (it would make the two modes evaluate differently)
+    g = ctx.used(P.fn("MemPoolAccept::ATMPArgs::SingleAccept"))
+    for e in exits(g, P):
+        if e.kind != "ret":
+            continue
+        for x in subexprs(e.value):
+            if x[0] in ("ctor", "init") and x[1] == "MemPoolAccept::ATMPArgs":
+                leaks = [(names[i] if i < len(names) else i, show(a)) for i, a in enumerate(x[2:]) if i != idx and contains(["param", "test_accept"], a)]
+                ctx.ob("SingleAccept/flag-only-in-its-slot@L%s" % e.line, "PROVENANCE", "in ATMPArgs::SingleAccept the test_accept parameter feeds only the "
+                       "m_test_accept option: no other acceptance option (replacement, sibling eviction, limits, ...) depends on it", not leaks, g.where, leaks or None)
+    for st in stmts(g.body):
+        if st.get("k") in ("if", "while", "for", "switch") and is_expr(st.get("c")) and contains(["param", "test_accept"], st["c"]):
+            ctx.ob("SingleAccept/no-branch-on-flag@L%s" % st.get("l"), "PROVENANCE", "ATMPArgs::SingleAccept does not branch on test_accept", False, g.where)
+    # no other member of ATMPArgs is derived from m_test_accept inside the constructor
+    for i in (ctor.d.get("inits") or []):
+        if i.get("f") != TFIELD and is_expr(i.get("i")) and contains(["param", "test_accept"], i["i"]):
+            ctx.ob("ATMPArgs/ctor-leak:%s" % i.get("f"), "PROVENANCE", "no other ATMPArgs member is initialised from test_accept", False, ctor.where, show(i["i"]))
     atmp = ctx.used(P.fn("AcceptToMemoryPool"))
     sa = [s for s in sites(atmp, call_to("MemPoolAccept::ATMPArgs::SingleAccept"), P)]
     ok = len(sa) == 1 and len(call_args(sa[0].expr)) >= 5 and match(["param", "test_accept"], call_args(sa[0].expr)[4])
